@@ -22,6 +22,14 @@ import Corro.Lemmas.Members
 
 namespace Corro.Members
 
+/- Every theorem below holds for EVERY bucket table and every (positive) sample window `cfg`; the
+values in the source (`Corro/Gen/MembersConsts.lean`) only instantiate the driver. -/
+variable {cfg : Cfg}
+
+/-- the table the concrete examples and counterexamples below are evaluated with (fixed here, so that a
+retune of the source's `RING_BUCKETS` does not touch them) -/
+def demoCfg : Cfg := ⟨[(0, 6), (6, 15), (15, 50), (50, 100), (100, 200), (200, 300)], 20, by decide⟩
+
 /-! ### (1) listed exactly if the newest identity's last notification was an up, with its address and cluster -/
 
 /-- **C18, sentence 1.**  For every admissible sequence and every actor, what the member table lists
@@ -29,7 +37,7 @@ namespace Corro.Members
 says: listed iff the last notification about the newest identity was an up, and then with that
 identity's address and cluster. -/
 theorem states_follow_newest (ops : List Op) (h : Admissible ops) (id : Nat) :
-    view (run ops) id = specView (specRun ops) id :=
+    view (run cfg ops) id = specView (specRun ops) id :=
   agree_fold ops init [] (fun _ => rfl) (by intro id e he; simp [get] at he) h id
 
 /-- The record of the specification fold carries the highest identity timestamp any notification of
@@ -48,7 +56,7 @@ theorem spec_up_is_last (ops : List Op) (id : Nat) (e : Ident) (he : get (specRu
 /-- **C18, sentence 1 without the fold.**  An actor is listed iff the last notification about its
 highest identity timestamp was an up; it is then listed with that timestamp. -/
 theorem listed_iff_newest_up (ops : List Op) (h : Admissible ops) (id : Nat) :
-    (∃ st, get (run ops).states id = some st) ↔
+    (∃ st, get (run cfg ops).states id = some st) ↔
       ∃ t, maxTs id ops = some t ∧ lastAbout id t ops = some true := by
   have hv := states_follow_newest ops h id
   have hm := spec_newest_is_max ops id
@@ -57,13 +65,13 @@ theorem listed_iff_newest_up (ops : List Op) (h : Admissible ops) (id : Nat) :
   cases he : get (specRun ops) id with
   | none =>
     simp only [he, Option.map_none] at hv hm
-    cases hs : get (run ops).states id with
+    cases hs : get (run cfg ops).states id with
     | none => simp [← hm]
     | some st => simp [hs] at hv
   | some e =>
     have hl' := hl e he
     simp only [he, Option.map_some] at hv hm
-    cases hs : get (run ops).states id with
+    cases hs : get (run cfg ops).states id with
     | none =>
       simp only [hs, Option.map_none] at hv
       have : e.up = false := by cases hu : e.up <;> simp_all
@@ -75,7 +83,7 @@ theorem listed_iff_newest_up (ops : List Op) (h : Admissible ops) (id : Nat) :
 
 /-- A listed member carries the highest identity timestamp heard of for it. -/
 theorem listed_ts_is_newest (ops : List Op) (h : Admissible ops) (id : Nat) (st : MemberState)
-    (hs : get (run ops).states id = some st) : maxTs id ops = some st.ts := by
+    (hs : get (run cfg ops).states id = some st) : maxTs id ops = some st.ts := by
   have hv := states_follow_newest ops h id
   have hm := spec_newest_is_max ops id
   simp only [view, specView, hs, Option.map_some] at hv
@@ -91,7 +99,7 @@ theorem listed_ts_is_newest (ops : List Op) (h : Admissible ops) (id : Nat) (st 
 identity (`TsDeterminesIdentity`: same actor and timestamp ⇒ same address and cluster), a listed
 member's address and cluster are those of every notification about its newest identity. -/
 theorem listed_with_newest_identity (ops : List Op) (h : Admissible ops) (hT : TsDeterminesIdentity ops)
-    (id : Nat) (st : MemberState) (hs : get (run ops).states id = some st)
+    (id : Nat) (st : MemberState) (hs : get (run cfg ops).states id = some st)
     (o : Op) (ho : o ∈ ops) (a c : Nat) (hn : notif o = some (id, st.ts, a, c)) :
     st.addr = a ∧ st.cluster = c := by
   have hv := states_follow_newest ops h id
@@ -125,14 +133,14 @@ theorem spec_eq_first_seen (ops : List Op) (hT : TsDeterminesIdentity ops) (id :
 same timestamp: it lists the re-announced address (a design choice of the specification, not a defect:
 both notifications claim to be the newest identity). -/
 theorem first_seen_tie_counterexample :
-    view (run [.up 1 1 1 0, .down 1 1 1 0, .up 1 2 1 0]) 1 = some (2, 1, 0) ∧
+    view (run demoCfg [.up 1 1 1 0, .down 1 1 1 0, .up 1 2 1 0]) 1 = some (2, 1, 0) ∧
     specView (specRunFirst [.up 1 1 1 0, .down 1 1 1 0, .up 1 2 1 0]) 1 = some (1, 1, 0) := by decide
 
 /-- The side condition is needed: after `down` about a newer identity the code has forgotten that
 identity, so a later (inadmissible) `up` of the older one is listed again. -/
 theorem inadmissible_counterexample :
     ¬ Admissible [.up 1 1 1 0, .down 1 1 2 0, .up 1 1 1 0] ∧
-    view (run [.up 1 1 1 0, .down 1 1 2 0, .up 1 1 1 0]) 1 = some (1, 1, 0) ∧
+    view (run demoCfg [.up 1 1 1 0, .down 1 1 2 0, .up 1 1 1 0]) 1 = some (1, 1, 0) ∧
     specView (specRun [.up 1 1 1 0, .down 1 1 2 0, .up 1 1 1 0]) 1 = none := by decide
 
 /-! ### (2) notifications about older identities never remove or overwrite a newer one -/
@@ -142,9 +150,9 @@ timestamp is older than the listed one changes nothing at all — not the member
 the rings — and reports `Ignored` / `removed = false`. -/
 theorem older_never_overwrites (m : Members) (id a ts c : Nat) (st : MemberState)
     (hs : get m.states id = some st) (hlt : ts < st.ts) :
-    addMember m id a ts c = (m, .ignored) ∧ removeMember m id ts = (m, false) ∧
-    step m (.up id a ts c) = m ∧ step m (.down id a ts c) = m := by
-  have h1 : addMember m id a ts c = (m, .ignored) := by simp [addMember, hs, hlt]
+    addMember cfg m id a ts c = (m, .ignored) ∧ removeMember m id ts = (m, false) ∧
+    step cfg m (.up id a ts c) = m ∧ step cfg m (.down id a ts c) = m := by
+  have h1 : addMember cfg m id a ts c = (m, .ignored) := by simp [addMember, hs, hlt]
   have h2 : removeMember m id ts = (m, false) := by
     simp only [removeMember, hs]; rw [if_neg (by omega)]
   exact ⟨h1, h2, by simp [step, h1], by simp [step, h2]⟩
@@ -160,7 +168,7 @@ identity timestamp is older than the newest one already heard of for that actor 
 identity is currently up or down — leaves the listing of every actor exactly as it was. -/
 theorem older_notification_keeps_view (ops : List Op) (op : Op) (h : Admissible (ops ++ [op]))
     (id t a c T : Nat) (hn : notif op = some (id, t, a, c)) (hT : maxTs id ops = some T) (hlt : t < T)
-    (id' : Nat) : view (run (ops ++ [op])) id' = view (run ops) id' := by
+    (id' : Nat) : view (run cfg (ops ++ [op])) id' = view (run cfg ops) id' := by
   have hA : Admissible ops := (List.pairwise_append.mp h).1
   rw [states_follow_newest _ h, states_follow_newest _ hA]
   have hm := spec_newest_is_max ops id
@@ -181,20 +189,20 @@ theorem older_notification_keeps_view (ops : List Op) (op : Op) (h : Admissible 
 /-- A notification about one actor never touches the entry of another actor (address, timestamp,
 cluster and ring all stay). -/
 theorem other_actors_untouched (m : Members) (id a ts c id' : Nat) (hne : id ≠ id') :
-    get (step m (.up id a ts c)).states id' = get m.states id' ∧
-    get (step m (.down id a ts c)).states id' = get m.states id' :=
+    get (step cfg m (.up id a ts c)).states id' = get m.states id' ∧
+    get (step cfg m (.down id a ts c)).states id' = get m.states id' :=
   ⟨get_states_addMember_other m id a ts c id' hne, get_states_removeMember_other m id ts id' hne⟩
 
 /-! ### (3) the address index -/
 
 /-- **Index soundness (unconditional).**  After every sequence, every `by_addr` entry points to a
 listed member whose *current* address it is: no stale entry survives an address change or a removal. -/
-theorem by_addr_points_to_member (ops : List Op) : IndexSound (run ops) :=
+theorem by_addr_points_to_member (ops : List Op) : IndexSound (run cfg ops) :=
   (K_iff _).mp (K_run ops)
 
 /-- **`by_addr_consistent`.**  If at no point of the sequence two listed members share an address,
 every listed member is indexed under its current address: `by_addr[its addr] = that actor`. -/
-theorem by_addr_consistent (ops : List Op) (h : NoSharedAddr ops) : IndexComplete (run ops) := by
+theorem by_addr_consistent (ops : List Op) (h : NoSharedAddr cfg ops) : IndexComplete (run cfg ops) := by
   refine (B'_iff _).mp (B'_runFrom ops init ?_ ?_)
   · intro id v hv; simp [view, init, get] at hv
   · intro k hk; exact D'_of_distinct _ (h k hk)
@@ -202,7 +210,7 @@ theorem by_addr_consistent (ops : List Op) (h : NoSharedAddr ops) : IndexComplet
 /-- For admissible sequences "no shared address" can be read off the notifications alone: the listed
 members have distinct addresses iff the peers whose newest identity is up have. -/
 theorem distinct_addrs_iff_spec (ops : List Op) (h : Admissible ops) :
-    DistinctAddrs (run ops) ↔
+    DistinctAddrs (run cfg ops) ↔
       ∀ i j vi vj, specView (specRun ops) i = some vi → specView (specRun ops) j = some vj →
         vi.1 = vj.1 → i = j := by
   constructor
@@ -219,16 +227,16 @@ theorem distinct_addrs_iff_spec (ops : List Op) (h : Admissible ops) :
 `NewMember` takes the index entry over; the first stays listed at that address without being
 indexed (`IndexComplete` fails), and when the second goes down the entry disappears altogether. -/
 theorem by_addr_shared_addr_counterexample :
-    (get (run [.up 1 1 1 0, .up 2 1 1 0]).states 1 = some ⟨1, 1, 0, none⟩ ∧
-     get (run [.up 1 1 1 0, .up 2 1 1 0]).byAddr 1 = some 2) ∧
-    (get (run [.up 1 1 1 0, .up 2 1 1 0, .down 2 1 1 0]).states 1 = some ⟨1, 1, 0, none⟩ ∧
-     get (run [.up 1 1 1 0, .up 2 1 1 0, .down 2 1 1 0]).byAddr 1 = none) := by decide
+    (get (run demoCfg [.up 1 1 1 0, .up 2 1 1 0]).states 1 = some ⟨1, 1, 0, none⟩ ∧
+     get (run demoCfg [.up 1 1 1 0, .up 2 1 1 0]).byAddr 1 = some 2) ∧
+    (get (run demoCfg [.up 1 1 1 0, .up 2 1 1 0, .down 2 1 1 0]).states 1 = some ⟨1, 1, 0, none⟩ ∧
+     get (run demoCfg [.up 1 1 1 0, .up 2 1 1 0, .down 2 1 1 0]).byAddr 1 = none) := by decide
 
 /-! ### (4) the ring follows the samples of the current address -/
 
 /-- The sample buffer of an address holds its (at most 20) newest samples, newest first. -/
 theorem rtts_are_newest_samples (ops : List Op) (a : Nat) :
-    (get (run ops).rtts a).getD [] = newestSamples a ops := by
+    (get (run cfg ops).rtts a).getD [] = newestSamples cfg a ops := by
   have := rtts_runFrom a ops init (by simp [init, get])
   simpa [run, init, get, newestSamples] using this
 
@@ -238,24 +246,24 @@ their average, `none` without samples or outside every bucket.  (The ring is rec
 `add_rtt` for the address and when the member is inserted or changes address; in between the
 samples of the address do not change, so "at the time of the last recalculation" is "now".) -/
 theorem ring_current_if_indexed (ops : List Op) (id : Nat) (st : MemberState)
-    (hs : get (run ops).states id = some st) (hb : get (run ops).byAddr st.addr = some id) :
-    st.ring = ringOf (newestSamples st.addr ops) := by
+    (hs : get (run cfg ops).states id = some st) (hb : get (run cfg ops).byAddr st.addr = some id) :
+    st.ring = ringOf cfg (newestSamples cfg st.addr ops) := by
   rw [← rtts_are_newest_samples]
   exact ringCurrent_run ops id st hs hb
 
 /-- **`ring_from_current_addr`.**  With one identity per address, *every* listed member's ring is the
 bucket of the average of the ≤ 20 newest samples recorded for its **current** address — samples for
 former addresses play no role, and an average outside every bucket gives no ring. -/
-theorem ring_from_current_addr (ops : List Op) (h : NoSharedAddr ops) (id : Nat) (st : MemberState)
-    (hs : get (run ops).states id = some st) :
-    st.ring = ringOf (newestSamples st.addr ops) :=
+theorem ring_from_current_addr (ops : List Op) (h : NoSharedAddr cfg ops) (id : Nat) (st : MemberState)
+    (hs : get (run cfg ops).states id = some st) :
+    st.ring = ringOf cfg (newestSamples cfg st.addr ops) :=
   ring_current_if_indexed ops id st hs (by_addr_consistent ops h id st hs)
 
 /-- Without "one identity per address" the ring of the member that lost the index entry goes stale:
 actor 1 keeps ring `none` although its current address averages 3 ms. -/
 theorem ring_shared_addr_counterexample :
-    get (run [.up 1 1 1 0, .up 2 1 1 0, .down 2 1 1 0, .rtt 1 3]).states 1 = some ⟨1, 1, 0, none⟩ ∧
-    ringOf (newestSamples 1 [.up 1 1 1 0, .up 2 1 1 0, .down 2 1 1 0, .rtt 1 3]) = some 0 := by decide
+    get (run demoCfg [.up 1 1 1 0, .up 2 1 1 0, .down 2 1 1 0, .rtt 1 3]).states 1 = some ⟨1, 1, 0, none⟩ ∧
+    ringOf demoCfg (newestSamples demoCfg 1 [.up 1 1 1 0, .up 2 1 1 0, .down 2 1 1 0, .rtt 1 3]) = some 0 := by decide
 
 /-! ### (5) priority broadcast targets -/
 
@@ -263,8 +271,8 @@ theorem ring_shared_addr_counterexample :
 listed members of that cluster whose ring is 0 — nobody from another cluster, nobody unlisted,
 nobody with another or no ring. -/
 theorem ring0_targets_sound (ops : List Op) (c a : Nat) :
-    a ∈ ring0 (run ops) c ↔
-      ∃ id st, get (run ops).states id = some st ∧ st.addr = a ∧ st.cluster = c ∧ st.ring = some 0 := by
+    a ∈ ring0 (run cfg ops) c ↔
+      ∃ id st, get (run cfg ops).states id = some st ∧ st.addr = a ∧ st.cluster = c ∧ st.ring = some 0 := by
   rw [mem_ring0]
   constructor
   · rintro ⟨kv, hkv, h⟩
@@ -274,12 +282,14 @@ theorem ring0_targets_sound (ops : List Op) (c a : Nat) :
 
 /-- **Sentence 3 end to end.**  For admissible sequences with one identity per address, an address is
 a priority target for a cluster iff it is the current address of a peer of that cluster whose newest
-identity is up and whose newest (≤ 20) samples for that address average below 6 ms (bucket 0). -/
+identity is up and whose newest (≤ `cap`) samples for that address average inside the first bucket of
+the table (ring 0; `0 ≤ avg < 6` ms for the table in the source today). -/
 theorem ring0_targets_are_near_same_cluster_peers (ops : List Op) (hA : Admissible ops)
-    (hN : NoSharedAddr ops) (c a : Nat) :
-    a ∈ ring0 (run ops) c ↔
+    (hN : NoSharedAddr cfg ops) (c a : Nat) :
+    a ∈ ring0 (run cfg ops) c ↔
       ∃ id ts, specView (specRun ops) id = some (a, ts, c) ∧
-        newestSamples a ops ≠ [] ∧ (newestSamples a ops).sum / (newestSamples a ops).length < 6 := by
+        newestSamples cfg a ops ≠ [] ∧
+          inFirstBucket cfg.buckets ((newestSamples cfg a ops).sum / (newestSamples cfg a ops).length) := by
   rw [ring0_targets_sound]
   constructor
   · rintro ⟨id, st, hs, h1, h2, h3⟩
@@ -289,7 +299,7 @@ theorem ring0_targets_are_near_same_cluster_peers (ops : List Op) (hA : Admissib
   · rintro ⟨id, ts, hv, hr⟩
     rw [← states_follow_newest ops hA] at hv
     simp only [view] at hv
-    cases hs : get (run ops).states id with
+    cases hs : get (run cfg ops).states id with
     | none => simp [hs] at hv
     | some st =>
       simp [hs] at hv
@@ -305,29 +315,29 @@ def demo : List Op :=
   [.up 1 1 2 0, .rtt 1 3, .up 2 2 1 0, .up 1 1 1 0, .rtt 2 250, .up 1 3 3 0, .rtt 3 250, .rtt 1 1,
    .down 2 2 4 1, .up 2 2 4 1, .down 1 1 2 0, .ring0 0]
 
-example : Admissible demo ∧ NoSharedAddr demo ∧ TsDeterminesIdentity demo := by decide
-example : (run demo).states = [(1, ⟨3, 3, 0, some 5⟩), (2, ⟨2, 4, 1, some 5⟩)] ∧
-    (run demo).byAddr = [(2, 2), (3, 1)] := by decide
+example : Admissible demo ∧ NoSharedAddr demoCfg demo ∧ TsDeterminesIdentity demo := by decide
+example : (run demoCfg demo).states = [(1, ⟨3, 3, 0, some 5⟩), (2, ⟨2, 4, 1, some 5⟩)] ∧
+    (run demoCfg demo).byAddr = [(2, 2), (3, 1)] := by decide
 example : specView (specRun demo) 1 = some (3, 3, 0) ∧ specView (specRun demo) 2 = some (2, 4, 1) := by decide
 
 /-- old F12a on the code as it is now: a down about a newer identity removes the member -/
-example : view (run [.up 1 1 1 0, .down 1 1 2 0]) 1 = none ∧ (run [.up 1 1 1 0, .down 1 1 2 0]).byAddr = [] := by
+example : view (run demoCfg [.up 1 1 1 0, .down 1 1 2 0]) 1 = none ∧ (run demoCfg [.up 1 1 1 0, .down 1 1 2 0]).byAddr = [] := by
   decide
 
 /-- old F12b: after the address change the new address is indexed, the ring of the old address is
 dropped and samples for the new address count (250 ms → ring 5, not a priority target) -/
-example : (run [.up 1 1 1 0, .rtt 1 1, .up 1 2 2 0, .rtt 2 250]).states = [(1, ⟨2, 2, 0, some 5⟩)] ∧
-    (run [.up 1 1 1 0, .rtt 1 1, .up 1 2 2 0, .rtt 2 250]).byAddr = [(2, 1)] ∧
-    ring0 (run [.up 1 1 1 0, .rtt 1 1, .up 1 2 2 0, .rtt 2 250]) 0 = [] := by decide
+example : (run demoCfg [.up 1 1 1 0, .rtt 1 1, .up 1 2 2 0, .rtt 2 250]).states = [(1, ⟨2, 2, 0, some 5⟩)] ∧
+    (run demoCfg [.up 1 1 1 0, .rtt 1 1, .up 1 2 2 0, .rtt 2 250]).byAddr = [(2, 1)] ∧
+    ring0 (run demoCfg [.up 1 1 1 0, .rtt 1 1, .up 1 2 2 0, .rtt 2 250]) 0 = [] := by decide
 
 /-- old F12c: twenty 1000 ms samples after a 1 ms one push the average out of every bucket → no ring -/
-example : (run (.up 1 1 1 0 :: .rtt 1 1 :: List.replicate 20 (.rtt 1 1000))).states = [(1, ⟨1, 1, 0, none⟩)] ∧
-    newestSamples 1 (.up 1 1 1 0 :: .rtt 1 1 :: List.replicate 20 (.rtt 1 1000)) = List.replicate 20 1000 := by
+example : (run demoCfg (.up 1 1 1 0 :: .rtt 1 1 :: List.replicate 20 (.rtt 1 1000))).states = [(1, ⟨1, 1, 0, none⟩)] ∧
+    newestSamples demoCfg 1 (.up 1 1 1 0 :: .rtt 1 1 :: List.replicate 20 (.rtt 1 1000)) = List.replicate 20 1000 := by
   decide
 
 /-- ring 0 only for the same cluster -/
-example : ring0 (run [.up 1 1 1 0, .up 2 2 1 1, .rtt 1 5, .rtt 2 5, .rtt 2 6]) 0 = [1] ∧
-    ring0 (run [.up 1 1 1 0, .up 2 2 1 1, .rtt 1 5, .rtt 2 5, .rtt 2 6]) 1 = [2] ∧
-    ring0 (run [.up 1 1 1 0, .up 2 2 1 1, .rtt 1 5, .rtt 2 5, .rtt 2 7]) 1 = [] := by decide
+example : ring0 (run demoCfg [.up 1 1 1 0, .up 2 2 1 1, .rtt 1 5, .rtt 2 5, .rtt 2 6]) 0 = [1] ∧
+    ring0 (run demoCfg [.up 1 1 1 0, .up 2 2 1 1, .rtt 1 5, .rtt 2 5, .rtt 2 6]) 1 = [2] ∧
+    ring0 (run demoCfg [.up 1 1 1 0, .up 2 2 1 1, .rtt 1 5, .rtt 2 5, .rtt 2 7]) 1 = [] := by decide
 
 end Corro.Members
